@@ -5,6 +5,7 @@ import (
 	"go/constant"
 	"go/token"
 	"go/types"
+	"os"
 	"path/filepath"
 	"sort"
 	"strings"
@@ -16,27 +17,28 @@ import (
 )
 
 type Program struct {
-	SSA        *ssa.Program
-	Fset       *token.FileSet
-	Pkgs       []*packages.Package
-	SPkgs      map[string]*ssa.Package // by import path
-	ModPath    string
-	RepoDir    string
-	contracts  map[string]*PkgContracts // by import path
-	mu         sync.Mutex
-	sums       map[*ssa.Function]*Modset
-	direct     map[*ssa.Function]*funcMods
-	keyDescs   map[string]keyDesc
-	scratch    *Exec
-	allFuncs   map[*ssa.Function]bool
-	funcIDs    map[*ssa.Function]int
-	addrTaken  []*ssa.Function
-	addrDone   bool
+	SSA          *ssa.Program
+	Fset         *token.FileSet
+	Pkgs         []*packages.Package
+	SPkgs        map[string]*ssa.Package // by import path
+	ModPath      string
+	RepoDir      string
+	contracts    map[string]*PkgContracts // by import path
+	mu           sync.Mutex
+	sums         map[*ssa.Function]*Modset
+	direct       map[*ssa.Function]*funcMods
+	keyDescs     map[string]keyDesc
+	scratch      *Exec
+	allFuncs     map[*ssa.Function]bool
+	funcIDs      map[*ssa.Function]int
+	addrTaken    []*ssa.Function
+	addrDone     bool
+	srcLines     map[string][]string
 	mapEntries   map[*ssa.Global][]mapEntry
 	mapEntriesOK map[*ssa.Global]bool
-	bvTypes    map[types.Object]int
-	globalLens map[*ssa.Global]int64
-	mapConst   map[*ssa.Global]bool
+	bvTypes      map[types.Object]int
+	globalLens   map[*ssa.Global]int64
+	mapConst     map[*ssa.Global]bool
 }
 
 type keyDesc struct {
@@ -652,8 +654,13 @@ func (p *Program) KeyInfo(ex *Exec, name string) *HeapKey {
 	case 'G':
 		return ex.keyGlobal(d.global)
 	case 'X':
-		if name == "X:modes" {
+		switch name {
+		case "X:modes":
 			return ex.modesKey()
+		case "X:trow":
+			return ex.trowKey()
+		case "X:tcol":
+			return ex.tcolKey()
 		}
 		return ex.penKey()
 	case 'Z':
@@ -862,6 +869,27 @@ func (p *Program) directMods(f *ssa.Function) *funcMods {
 	return fm
 }
 
+// sourceLine returns line n (1-based) of a source file of the repository (cached).
+func (p *Program) sourceLine(file string, n int) string {
+	p.mu.Lock()
+	defer p.mu.Unlock()
+	if p.srcLines == nil {
+		p.srcLines = map[string][]string{}
+	}
+	ls, ok := p.srcLines[file]
+	if !ok {
+		data, err := os.ReadFile(file)
+		if err == nil {
+			ls = strings.Split(string(data), "\n")
+		}
+		p.srcLines[file] = ls
+	}
+	if n < 1 || n > len(ls) {
+		return ""
+	}
+	return ls[n-1]
+}
+
 // externDecl finds an `extern attr` / `extern func` declaration for a callee key in any package's contracts.
 func (p *Program) externDecl(key string) (bool, *FuncContract, *PkgContracts) {
 	var paths []string
@@ -973,6 +1001,8 @@ func (p *Program) callMods(fm *funcMods, cc *ssa.CallCommon, paramIdx map[*ssa.P
 	if k, _ := sinkKind(callee); k == "write" || k == "printf" {
 		fm.ms.keys[p.noteKey("X:pen", keyDesc{kind: 'X'})] = true
 		fm.ms.keys[p.noteKey("X:modes", keyDesc{kind: 'X'})] = true
+		fm.ms.keys[p.noteKey("X:trow", keyDesc{kind: 'X'})] = true
+		fm.ms.keys[p.noteKey("X:tcol", keyDesc{kind: 'X'})] = true
 	}
 	if attr, fc, pc := p.externDecl(externKey(callee)); attr || fc != nil {
 		p.externMods(fm, fc, pc, cc.Args)
